@@ -116,11 +116,14 @@ def jobs(tier, seed):
             V.append((".le2.i0=%d..%d" % (lo, hi), "xor.plan.le2", 1, l2, lo, hi, None, 0, "P#", ""))
         if hd == 4:
             pairs = [(x, y) for x in range(n) for y in range(n) if x != y]
+            complete3 = tier == "thorough" and n <= 16
             if tier != "thorough":
                 pairs = [pairs[rnd.randrange(len(pairs))]]
+            elif not complete3:
+                pairs = rnd.sample(pairs, 40)
             for (x, y) in pairs:
-                V.append((".3.i=%d,%d" % (x, y), "xor.plan.3", 3, 3, x, x, (y, y), 0, "P#" if tier == "thorough" else "B",
-                          "" if tier == "thorough" else "quick tier: requests with |R|+|X| == 3 only for one (first, second) index pair per hd=4 table (VERIF_SEED); all requests with |R|+|X| <= 2 complete; the thorough tier enumerates every pair"))
+                V.append((".3.i=%d,%d" % (x, y), "xor.plan.3", 3, 3, x, x, (y, y), 0, "P#" if complete3 else "B",
+                          "" if complete3 else ("requests with |R|+|X| == 3: %s (first, second) index pair(s) per hd=4 table (VERIF_SEED); all requests with |R|+|X| <= 2 complete; the thorough tier enumerates every pair of the tables with k+m <= 16 and 40 sampled pairs of the larger ones" % ("one" if tier != "thorough" else "40 sampled"))))
         r = 7 if hd == 3 else 6
         xs = list(range(max(0, n - 1 - r), n - hd + 1))
         if tier != "thorough":
